@@ -56,7 +56,7 @@ RESUME_MUTS = [None, None, "resume_wrong_secret", "resume_wrong_sid", "resume_no
 
 def gen_plan(seed: int, tier: str) -> dict:
     r = random.Random(seed)
-    driver = r.choice(["pipe-ip"] * 5 + ["pipe-ble"] * 3 + ["resume"] * 3 + ["ip"])
+    driver = r.choice(["pipe-ip"] * 5 + ["pipe-ble"] * 3 + ["resume"] * 3 + ["ip"] + ["ble-link"] * 2 + ["coap"] * 2)
     mut = r.choice(RESUME_MUTS) if driver == "resume" else r.choice(MUTS)
     return {"driver": driver, "mut": mut, "mseed": r.randrange(10**9), "acc_id": ":".join(f"{r.randrange(256):02X}" for _ in range(6)), "ops": []}
 
@@ -217,9 +217,33 @@ def execute(plan: dict, ch: Chooser) -> dict:
         pipe = Pipe("ip" if driver == "pipe-ip" else "ble")
         if trunc is not None:
             pipe.wire_hook = lambda step, rb: rb[: max(0, min(len(rb) - 1, int(len(rb) * trunc)))] if step == 0 else rb
+        coap_verified = False
         try:
             if driver == "resume":
                 outcome["keys"] = pipe.run(get_session_keys(dict(pairing_data), prev[0], prev[1]), vr.handle)
+            elif driver in ("ble-link", "coap"):
+                # the real transport code: BLE pairing channel (drive_pairing_state_machine) / CoAP do_pair_verify
+                from checks.protocommon import run_ble_link, run_coap
+
+                try:
+                    if driver == "ble-link":
+                        outcome["keys"], pipe.delivered = run_ble_link(ctx, ch, "PAIR_VERIFY", [lambda _: get_session_keys(dict(pairing_data))], vr.handle, pipe.wire_hook,
+                                                                       fsize=r.choice([23, 100, 244]), tlv_frag=r.choice([None, 64, 100]))
+                    else:
+                        res, pipe.delivered = run_coap(ctx, ch, "verify", vr.handle, pipe.wire_hook, pairing_data=dict(pairing_data))
+                        coap_verified = res is not None
+                        if coap_verified:  # CoAP keeps cipher objects, not a derive function: compare by use
+                            enc = res[1]
+                            a2c_, c2a_ = vr.control_keys() if vr.shared is not None else (bytes(32), bytes(32))
+                            probe = RC.seal(a2c_, bytes(4) + (0).to_bytes(8, "little"), b"probe", b"")
+                            try:
+                                same = enc.recv_ctx.decrypt(bytes(4) + (0).to_bytes(8, "little"), probe, b"") == b"probe"
+                            except Exception:  # noqa: BLE001
+                                same = False
+                            outcome["keys"] = (b"", (lambda salt, info, _s=same, _v=vr: RC.hkdf(_v.shared, salt, info) if _s else b"different"))
+                except Exception as e:  # noqa: BLE001
+                    pipe.delivered = getattr(e, "delivered", [])
+                    raise
             else:
                 outcome["keys"] = pipe.run(get_session_keys(dict(pairing_data)), vr.handle)
         except Exception as e:  # noqa: BLE001
